@@ -60,38 +60,6 @@ package taskctl
 //@   loop 1 invariant [ready] ready ==> same(scheduler.Stage.Status) && forall k :: 0 <= k && k <= $i ==> depOK(dep(p, stage, k))
 //@   loop 1 invariant [bad] forall k :: 0 <= k && k <= $i && depBad(dep(p, stage, k)) ==> !ready && stage.Status == scheduler.StatusCanceled
 
-//@ func (*Scheduler).Canceled
-//@   requires [nonnil] s != nil
-//@   ensures [flag] res <==> s.cancelled == 1
-//@   modifies nothing
-
-//@ ghost $scheduleReturned scalar Bool
-
-//@ func (*Scheduler).Schedule
-//@   trusted sequential skeleton only: the stage goroutines run concurrently with the loop (see Schedule obligations under C02/C04); for callers the only fact used is that the call returned
-//@   requires [nonnil] s != nil
-//@   ensures  [returned] $scheduleReturned
-//@   modifies $scheduleReturned, $clock
-
-//@ func interface (github.com/Flowpack/prunner/taskctl.OutputStore).Remove
-//@   ensures [removed] $logsRemoved[jobID]
-//@   modifies $logsRemoved@[jobID]
-
-// ---------------------------------------------------------------------------------------
-// Stage readiness (C02, C08)
-//@ pure depOK(d *scheduler.Stage) bool = d.Status == scheduler.StatusDone || d.Status == scheduler.StatusSkipped || (d.Status == scheduler.StatusError && d.AllowFailure)
-//@ pure depBad(d *scheduler.Stage) bool = (d.Status == scheduler.StatusError && !d.AllowFailure) || d.Status == scheduler.StatusCanceled
-//@ pure dep(p *scheduler.ExecutionGraph, stage *scheduler.Stage, i int) *scheduler.Stage = graphNode(p, graphTo(p, stage.Name)[i])
-
-//@ func checkStatus
-//@   requires [nonnil] p != nil && stage != nil
-//@   ensures  [C02.ready] ready ==> forall i :: 0 <= i && i < len(graphTo(p, stage.Name)) ==> depOK(dep(p, stage, i))
-//@   ensures  [C02.readyUntouched] ready ==> same(scheduler.Stage.Status)
-//@   ensures  [C08.cancelDependents] (exists i :: 0 <= i && i < len(graphTo(p, stage.Name)) && old(depBad(dep(p, stage, i)))) ==> !ready && stage.Status == scheduler.StatusCanceled
-//@   ensures  [C08.onlyOwnStatus] sameExcept(scheduler.Stage.Status, stage) && (stage.Status == old(stage.Status) || stage.Status == scheduler.StatusCanceled)
-//@   modifies scheduler.Stage.Status@[stage]
-//@   loop 1 invariant [sofar] 0 <= $i + 1 && $i + 1 <= len(graphTo(p, stage.Name)) && (ready ==> same(scheduler.Stage.Status) && forall k :: 0 <= k && k <= $i ==> depOK(dep(p, stage, k))) && (forall k :: 0 <= k && k <= $i && old(depBad(dep(p, stage, k))) ==> !ready && stage.Status == scheduler.StatusCanceled) && sameExcept(scheduler.Stage.Status, stage) && (stage.Status == old(stage.Status) || stage.Status == scheduler.StatusCanceled)
-
 //@ func (*Scheduler).Cancel
 //@   requires [nonnil] s != nil
 //@   at call Cancel#1: assert [C04.flagFirst] s.cancelled == 1
